@@ -3,23 +3,35 @@
 
   All theorems quantify over an ARBITRARY list of actions `acts`, i.e. over every
   interleaving of the callers, workers, dial goroutines, idle timers, `Close`, context
-  cancellations and the server's replies/aborts (see MosVerif/Model/Reuse.lean); the proofs
-  are by induction over that list through the invariant of MosVerif/Lemmas/ReuseInv.lean.
+  cancellations and the server's replies/repeated frames/aborts (see MosVerif/Model/Reuse.lean);
+  the proofs are by induction over that list through the invariants of
+  MosVerif/Lemmas/ReuseInv.lean (safety, holds against ANY server: `reachAdv`) and
+  MosVerif/Lemmas/ReuseContent.lean (whose reply it is; needs a server that does not forge
+  frames but may repeat them: `reach`).
 -/
 import MosVerif.Model.Reuse
 import MosVerif.Lemmas.ReuseInv
+import MosVerif.Lemmas.ReuseContent
 import MosVerif.Generated.Facts
 namespace MosVerif.C06
 set_option linter.unusedSimpArgs false
 open MosVerif.Reuse
 
-/-- the states reachable by any schedule -/
+/-- the states reachable by any schedule, against a server that answers in order and may send
+    frames it already sent once more (`srvStray` is disabled) -/
 abbrev reach (acts : List Act) : State := exec State.init acts
+
+/-- the states reachable by any schedule against a server that may send arbitrary frames -/
+abbrev reachAdv (acts : List Act) : State := execAdv State.init acts
 
 /-- ★ central theorem: the observable history of every schedule satisfies the specification
     that is used as the oracle for the implementation's histories. -/
-theorem model_meets_spec (acts : List Act) : spec (reach acts).hist = true :=
-  (reach_inv acts).ok
+theorem model_meets_spec (acts : List Act) : spec (reach acts).hist = true := by
+  simp [spec, (reach_inv acts).ok, (reachC_inv acts).own]
+
+/-- … and against an arbitrary server every clause but "whose reply it is" still holds. -/
+theorem adv_meets_safe (acts : List Act) : safe (reachAdv acts).hist = true :=
+  (reachAdv_inv acts).ok
 
 /-- … in particular the schedule the driver derives from a harness script, whatever the
     connection choices reported by the implementation. -/
@@ -27,33 +39,59 @@ theorem script_meets_spec (nex : Nat) (picks : List Nat) (ops : List Op) :
     spec (exec State.init (plan nex picks ops)).hist = true :=
   model_meets_spec _
 
-/-- ★ at most one query is outstanding on a connection (at most one reply is owed by the
-    server), and while one is outstanding the connection is marked as serving. -/
-theorem one_outstanding (acts : List Act) (c : Nat) :
-    ((reach acts).conn c).pending.length ≤ 1 ∧
-    (((reach acts).conn c).pending.length = 1 → ((reach acts).conn c).serving = true) := by
-  have h := (reach_inv acts).conn c
+theorem one_outstanding_of_inv {s : State} (hi : Inv s) (c : Nat) :
+    (s.conn c).pending.length ≤ 1 ∧ ((s.conn c).pending.length = 1 → (s.conn c).serving = true) := by
+  have h := hi.conn c
   simp only [ConnOK, COK] at h
   refine ⟨h.2.2.1, fun h1 => h.2.2.2.1 ?_⟩
   intro h0; rw [h0] at h1; simp at h1
 
-/-- ★ a connection in the idle set is not serving, is owned by no goroutine, owes no reply and
-    holds no half-consumed reply (the reply to every query ever written to it has been consumed
-    completely), and never saw a failed or undecodable I/O (its last exchange ended without
-    error). -/
-theorem idle_clean (acts : List Act) (c : Nat) (hc : c ∈ (reach acts).idle) :
-    ((reach acts).conn c).serving = false ∧ ((reach acts).conn c).worker = none ∧
-    ((reach acts).conn c).pending = [] ∧ ((reach acts).conn c).halfRead = false ∧
-    (mon (reach acts).hist).out c = [] ∧ (mon (reach acts).hist).dirty c = false := by
-  have h := (reach_inv acts).conn c
+/-- ★ at most one query is outstanding on a connection, and while one is outstanding the
+    connection is marked as serving. -/
+theorem one_outstanding (acts : List Act) (c : Nat) :
+    ((reach acts).conn c).pending.length ≤ 1 ∧
+    (((reach acts).conn c).pending.length = 1 → ((reach acts).conn c).serving = true) :=
+  one_outstanding_of_inv (reach_inv acts) c
+
+theorem one_outstanding_adv (acts : List Act) (c : Nat) :
+    ((reachAdv acts).conn c).pending.length ≤ 1 ∧
+    (((reachAdv acts).conn c).pending.length = 1 → ((reachAdv acts).conn c).serving = true) :=
+  one_outstanding_of_inv (reachAdv_inv acts) c
+
+theorem idle_clean_of_inv {s : State} (hi : Inv s) (c : Nat) (hc : c ∈ s.idle) :
+    (s.conn c).serving = false ∧ (s.conn c).worker = none ∧ (s.conn c).pending = [] ∧
+    (s.conn c).halfRead = false ∧ (mon s.hist).out c = [] ∧ (mon s.hist).dirty c = false := by
+  have h := hi.conn c
   simp only [ConnOK, COK] at h
   have hi := h.2.2.2.2.1 hc
   exact ⟨hi.2.1, hi.1, hi.2.2.1, hi.2.2.2.1, by rw [h.1]; exact hi.2.2.1, hi.2.2.2.2.1⟩
+
+/-- ★ a connection in the idle set is not serving, is owned by no goroutine, has no query
+    outstanding and no half-consumed frame, and never saw a failed I/O, an undecodable frame or
+    a frame with a foreign id (its last exchange ended without error). -/
+theorem idle_clean (acts : List Act) (c : Nat) (hc : c ∈ (reach acts).idle) :
+    ((reach acts).conn c).serving = false ∧ ((reach acts).conn c).worker = none ∧
+    ((reach acts).conn c).pending = [] ∧ ((reach acts).conn c).halfRead = false ∧
+    (mon (reach acts).hist).out c = [] ∧ (mon (reach acts).hist).dirty c = false :=
+  idle_clean_of_inv (reach_inv acts) c hc
+
+theorem idle_clean_adv (acts : List Act) (c : Nat) (hc : c ∈ (reachAdv acts).idle) :
+    ((reachAdv acts).conn c).serving = false ∧ ((reachAdv acts).conn c).worker = none ∧
+    ((reachAdv acts).conn c).pending = [] ∧ ((reachAdv acts).conn c).halfRead = false ∧
+    (mon (reachAdv acts).hist).out c = [] ∧ (mon (reachAdv acts).hist).dirty c = false :=
+  idle_clean_of_inv (reachAdv_inv acts) c hc
 
 /-- the monitor never recovers: once `ok` is false it stays false -/
 theorem monStep_ok_mono (m : Mon) (ev : Event) (h : (monStep m ev).ok = true) : m.ok = true := by
   cases ev with
   | ret e r => cases r <;> simp [monStep] at h ⊢ <;> simp_all
+  | rd c q i => simp only [monStep] at h; (repeat' split at h) <;> exact h
+  | _ => simp [monStep] at h ⊢ <;> simp_all
+
+theorem monStep_own_mono (m : Mon) (ev : Event) (h : (monStep m ev).own = true) : m.own = true := by
+  cases ev with
+  | ret e r => cases r <;> simp [monStep] at h ⊢ <;> simp_all
+  | rd c q i => simp only [monStep] at h; (repeat' split at h) <;> exact h
   | _ => simp [monStep] at h ⊢ <;> simp_all
 
 theorem foldl_ok_mono (l : List Event) (m : Mon) (h : (l.foldl monStep m).ok = true) : m.ok = true := by
@@ -61,10 +99,22 @@ theorem foldl_ok_mono (l : List Event) (m : Mon) (h : (l.foldl monStep m).ok = t
   | nil => exact h
   | cons x xs ih => exact monStep_ok_mono _ _ (ih _ h)
 
-/-- `spec` is prefix closed -/
-theorem spec_prefix (h₁ h₂ : List Event) (h : spec (h₁ ++ h₂) = true) : spec h₁ = true := by
-  simp only [spec, mon_append] at h
+theorem foldl_own_mono (l : List Event) (m : Mon) (h : (l.foldl monStep m).own = true) : m.own = true := by
+  induction l generalizing m with
+  | nil => exact h
+  | cons x xs ih => exact monStep_own_mono _ _ (ih _ h)
+
+/-- `safe` and `spec` are prefix closed -/
+theorem safe_prefix (h₁ h₂ : List Event) (h : safe (h₁ ++ h₂) = true) : safe h₁ = true := by
+  simp only [safe, mon_append] at h
   exact foldl_ok_mono _ _ h
+
+theorem spec_safe (h : List Event) (hs : spec h = true) : safe h = true := by
+  simp [spec] at hs; exact hs.1
+
+theorem spec_prefix (h₁ h₂ : List Event) (h : spec (h₁ ++ h₂) = true) : spec h₁ = true := by
+  simp only [spec, mon_append, Bool.and_eq_true] at h ⊢
+  exact ⟨foldl_ok_mono _ _ h.1, foldl_own_mono _ _ h.2⟩
 
 /-- what `spec` says about returned messages -/
 theorem spec_own_reply (h : List Event) (hs : spec h = true) (e q : Nat)
@@ -72,31 +122,142 @@ theorem spec_own_reply (h : List Event) (hs : spec h = true) (e q : Nat)
   obtain ⟨h₁, h₂, rfl⟩ := List.append_of_mem hm
   have := spec_prefix (h₁ ++ [Event.ret e (.ok q)]) h₂ (by simpa using hs)
   simp [spec, monStep] at this
-  exact this.2
+  exact this.2.2
 
-/-- ★ an exchange that returns a message returns the reply to its own query (given a server
-    that sends one reply per query, in order — that is how `workerReadOk` labels replies). -/
+/-- ★ an exchange that returns a message returns the reply to its own query — given a server
+    that answers queries in order (that is how `srvReply` labels frames) and that may send
+    frames it already sent once more, at any time (`srvDup`): since 31b269e a duplicated reply
+    no longer shifts the stream. -/
 theorem own_reply (acts : List Act) (e q : Nat) (h : Event.ret e (.ok q) ∈ (reach acts).hist) : q = e :=
   spec_own_reply _ (model_meets_spec acts) e q h
 
 /-- the result channel of an attempt only ever carries the reply to that exchange's query -/
 theorem own_reply_chan (acts : List Act) (e a q : Nat) (h : (reach acts).chan e a = some (.ok q)) : q = e :=
-  (reach_inv acts).chan e a q h
+  (reachC_inv acts).chan e a q h
+
+/-- how the monitor's `acc` is filled: `q ∈ acc e` only if a complete frame with content `q`
+    was consumed on a connection that was in `e`'s hands, and the frame carried the wire id of
+    the query last received on that connection -/
+theorem acc_origin (l : List Event) (m : Mon) (e q : Nat) (h : q ∈ (l.foldl monStep m).acc e) :
+    q ∈ m.acc e ∨ ∃ l₁ c i l₂, l = l₁ ++ Event.rd c q i :: l₂ ∧ (l₁.foldl monStep m).wid c = i ∧
+      (l₁.foldl monStep m).owner c = some e := by
+  induction l generalizing m with
+  | nil => exact Or.inl h
+  | cons ev l ih =>
+    rcases ih (monStep m ev) h with h1 | ⟨l₁, c, i, l₂, rfl, hw, ho⟩
+    · -- q entered acc at this very event, or was there before
+      by_cases hq : q ∈ m.acc e
+      · exact Or.inl hq
+      · right
+        cases ev with
+        | rd c q' i =>
+          simp only [monStep] at h1
+          split at h1
+          · rename_i hid
+            split at h1
+            · rename_i e' hown
+              by_cases he : e = e'
+              · subst he
+                simp at h1
+                rcases h1 with rfl | h1
+                · exact ⟨[], c, i, l, rfl, hid.symm, hown⟩
+                · exact absurd h1 hq
+              · simp [upd_apply, he] at h1; exact absurd h1 hq
+            · exact absurd h1 hq
+          · exact absurd h1 hq
+        | ret e' r => cases r <;> simp [monStep] at h1 <;> exact absurd h1 hq
+        | _ => simp [monStep] at h1 <;> exact absurd h1 hq
+    · exact Or.inr ⟨ev :: l₁, c, i, l₂, rfl, hw, ho⟩
+
+/-- what `safe` says about returned messages: the message returned to `e` (content `q`) is a
+    frame that was consumed, before the return, on a connection in `e`'s hands and that carried
+    the on-wire id of the query last put on that connection. -/
+theorem safe_own_wire_id (h₁ h₂ : List Event) (e q : Nat) (hs : safe (h₁ ++ Event.ret e (.ok q) :: h₂) = true) :
+    ∃ l₁ c i l₂, h₁ = l₁ ++ Event.rd c q i :: l₂ ∧ (mon l₁).wid c = i ∧ (mon l₁).owner c = some e := by
+  have := safe_prefix (h₁ ++ [Event.ret e (.ok q)]) h₂ (by simpa using hs)
+  simp [safe, monStep] at this
+  rcases acc_origin h₁ Mon.init e q (by simpa [mon] using this.2) with h0 | h1
+  · simp [Mon.init] at h0
+  · exact h1
+
+/-- ★ (new with 31b269e) even against a server that sends extra, duplicated or arbitrary frames:
+    an exchange that returns a message returns a frame one of its workers consumed with the
+    exchange's own on-wire id. -/
+theorem own_wire_id (acts : List Act) (e q : Nat) (h₁ h₂ : List Event)
+    (hh : (reachAdv acts).hist = h₁ ++ Event.ret e (.ok q) :: h₂) :
+    ∃ l₁ c i l₂, h₁ = l₁ ++ Event.rd c q i :: l₂ ∧ (mon l₁).wid c = i ∧ (mon l₁).owner c = some e :=
+  safe_own_wire_id h₁ h₂ e q (by rw [← hh]; exact adv_meets_safe acts)
+
+/-- the monitor's "dirty" mark is never removed -/
+theorem dirty_persists (l : List Event) (m : Mon) (c : Nat) (hd : m.dirty c = true) :
+    (l.foldl monStep m).dirty c = true := by
+  induction l generalizing m with
+  | nil => exact hd
+  | cons ev l ih =>
+    apply ih
+    cases ev with
+    | rd c' q i => simp only [monStep]; (repeat' split) <;> simp [upd_apply, hd]
+    | bad c' => simp [monStep, upd_apply, hd]
+    | err c' => simp [monStep, upd_apply, hd]
+    | ret e r => cases r <;> simp [monStep, hd]
+    | _ => simp [monStep, hd]
+
+/-- what `safe` says about frames with a foreign id: once such a frame was consumed on a
+    connection, the connection is never handed to an exchange again. -/
+theorem safe_foreign_never_reused (h₁ h₂ h₃ : List Event) (c q i q' : Nat) (hid : (mon h₁).wid c ≠ i) :
+    safe (h₁ ++ Event.rd c q i :: (h₂ ++ Event.use c q' :: h₃)) = false := by
+  apply Classical.byContradiction
+  intro hne
+  have hs : safe (h₁ ++ Event.rd c q i :: (h₂ ++ Event.use c q' :: h₃)) = true := by
+    cases hx : safe (h₁ ++ Event.rd c q i :: (h₂ ++ Event.use c q' :: h₃)) <;> simp_all
+  have hp := safe_prefix (h₁ ++ Event.rd c q i :: (h₂ ++ [Event.use c q'])) h₃ (by simpa using hs)
+  have hd : (mon (h₁ ++ Event.rd c q i :: h₂)).dirty c = true := by
+    rw [mon_append, List.foldl_cons]
+    apply dirty_persists
+    simp [monStep, Ne.symm hid]
+  have : h₁ ++ Event.rd c q i :: (h₂ ++ [Event.use c q']) = (h₁ ++ Event.rd c q i :: h₂) ++ [Event.use c q'] := by
+    simp
+  rw [this] at hp
+  have hp' : (monStep (mon (h₁ ++ Event.rd c q i :: h₂)) (Event.use c q')).ok = true := by
+    simpa only [safe, mon_append1] using hp
+  simp only [monStep, hd] at hp'
+  simp at hp'
+
+/-- ★ (new with 31b269e) against any server, for all histories: a connection on which a frame
+    with a foreign id was consumed is never handed to an exchange again … -/
+theorem foreign_id_never_reused (acts : List Act) (c q i q' : Nat) (h₁ h₂ : List Event)
+    (hh : (reachAdv acts).hist = h₁ ++ Event.rd c q i :: h₂) (hid : (mon h₁).wid c ≠ i) :
+    Event.use c q' ∉ h₂ := by
+  intro hm
+  obtain ⟨l₁, l₂, rfl⟩ := List.append_of_mem hm
+  have := safe_foreign_never_reused h₁ l₁ l₂ c q i q' hid
+  rw [← hh, adv_meets_safe acts] at this
+  exact Bool.noConfusion this
+
+/-- … and is never (again) in the idle set. -/
+theorem foreign_id_never_idle (acts : List Act) (c q i : Nat) (h₁ h₂ : List Event)
+    (hh : (reachAdv acts).hist = h₁ ++ Event.rd c q i :: h₂) (hid : (mon h₁).wid c ≠ i) :
+    c ∉ (reachAdv acts).idle := by
+  intro hc
+  have hcl := (idle_clean_adv acts c hc).2.2.2.2.2
+  rw [hh, mon_append, List.foldl_cons, dirty_persists] at hcl
+  · exact Bool.noConfusion hcl
+  · simp [monStep, Ne.symm hid]
 
 theorem monStep_out_le_one (m : Mon) (ev : Event) (c : Nat) (hok : (monStep m ev).ok = true)
     (hl : (m.out c).length ≤ 1) : ((monStep m ev).out c).length ≤ 1 := by
   cases ev with
-  | wr c' q =>
+  | wr c' q i =>
     simp only [monStep] at hok ⊢
     by_cases hc : c = c'
     · subst hc; simp at hok; simp [hok.1.1.2]
     · simp [hc, hl]
-  | rd c' q =>
+  | rd c' q i =>
     simp only [monStep]
     by_cases hc : c = c'
-    · subst hc; simp; omega
-    · simp [hc, hl]
-  | bad c' q =>
+    · subst hc; (repeat' split) <;> (simp; omega)
+    · (repeat' split) <;> simp [hc, hl]
+  | bad c' =>
     simp only [monStep]
     by_cases hc : c = c'
     · subst hc; simp; omega
@@ -112,80 +273,86 @@ theorem foldl_out_le_one (l : List Event) (m : Mon) (c : Nat) (hok : (l.foldl mo
     simp only [List.foldl_cons] at hok ⊢
     exact ih _ hok (monStep_out_le_one m ev c (foldl_ok_mono l _ hok) hl)
 
-/-- what `spec` says about outstanding queries: in every prefix of the history at most one
+/-- what `safe` says about outstanding queries: in every prefix of the history at most one
     query is outstanding per connection -/
-theorem mon_out_le_one (h : List Event) (c : Nat) (hs : spec h = true) : ((mon h).out c).length ≤ 1 :=
+theorem mon_out_le_one (h : List Event) (c : Nat) (hs : safe h = true) : ((mon h).out c).length ≤ 1 :=
   foldl_out_le_one h Mon.init c hs (by simp [Mon.init])
 
-/-- what `spec` says about reuse: whenever a connection is handed to an exchange, nothing is
-    outstanding on it, no I/O on it has failed, its previous user's reply has been drained,
-    and it has not been closed by the client (unless the whole transport was closed). -/
-theorem spec_use_clean (h₁ h₂ : List Event) (c q : Nat) (hs : spec (h₁ ++ Event.use c q :: h₂) = true) :
+/-- what `safe` says about reuse: whenever a connection is handed to an exchange, nothing is
+    outstanding on it, no I/O on it has failed and no frame with a foreign id was consumed on
+    it, its previous user's reply has been drained, and it has not been closed by the client
+    (unless the whole transport was closed). -/
+theorem spec_use_clean (h₁ h₂ : List Event) (c q : Nat) (hs : safe (h₁ ++ Event.use c q :: h₂) = true) :
     (mon h₁).out c = [] ∧ (mon h₁).dirty c = false ∧ (mon h₁).ab c = false ∧
     ((mon h₁).closed c = true → (mon h₁).tclosed = true) := by
-  have := spec_prefix (h₁ ++ [Event.use c q]) h₂ (by simpa using hs)
-  simp [spec, monStep] at this
+  have := safe_prefix (h₁ ++ [Event.use c q]) h₂ (by simpa using hs)
+  simp [safe, monStep] at this
   refine ⟨this.1.1.1.2, this.1.1.2, this.1.2, fun hc => ?_⟩
   rcases this.2 with h | h
   · rw [hc] at h; exact Bool.noConfusion h
   · exact h
 
-theorem spec_one_outstanding (h₁ h₂ : List Event) (c : Nat) (hs : spec (h₁ ++ h₂) = true) :
+theorem spec_one_outstanding (h₁ h₂ : List Event) (c : Nat) (hs : safe (h₁ ++ h₂) = true) :
     ((mon h₁).out c).length ≤ 1 :=
-  mon_out_le_one h₁ c (spec_prefix h₁ h₂ hs)
+  mon_out_le_one h₁ c (safe_prefix h₁ h₂ hs)
 
-/-- the "abandoned and not drained" mark of the monitor persists until the reply is consumed -/
+/-- the "abandoned and not drained" mark of the monitor persists until a frame is consumed -/
 theorem ab_persists (l : List Event) (m : Mon) (c : Nat) (hab : m.ab c = true)
-    (hno : ∀ q, Event.rd c q ∉ l) : (l.foldl monStep m).ab c = true := by
+    (hno : ∀ q i, Event.rd c q i ∉ l) : (l.foldl monStep m).ab c = true := by
   induction l generalizing m with
   | nil => exact hab
   | cons ev l ih =>
     apply ih
     · cases ev with
-      | rd c' q =>
-        have : c ≠ c' := fun hc => hno q (by simp [hc])
-        simp [monStep, this, hab]
+      | rd c' q i =>
+        have : c ≠ c' := fun hc => hno q i (by simp [hc])
+        simp only [monStep]; (repeat' split) <;> simp [this, hab]
       | ret e r => cases r <;> simp [monStep, hab]
       | _ => simp [monStep, hab]
-    · intro q hq; exact hno q (List.mem_cons_of_mem _ hq)
+    · intro q i hq; exact hno q i (List.mem_cons_of_mem _ hq)
+
+theorem idle_not_abandoned_of_inv {s : State} (hi : Inv s) (c : Nat) (hc : c ∈ s.idle) :
+    (mon s.hist).ab c = false := by
+  have h := hi.conn c
+  simp only [ConnOK, COK] at h
+  exact (h.2.2.2.2.1 hc).2.2.2.2.2.2
 
 /-- a connection in the idle set never carries the mark "its user gave up and the reply was
     not drained" -/
 theorem idle_not_abandoned (acts : List Act) (c : Nat) (hc : c ∈ (reach acts).idle) :
-    (mon (reach acts).hist).ab c = false := by
-  have h := (reach_inv acts).conn c
-  simp only [ConnOK, COK] at h
-  exact (h.2.2.2.2.1 hc).2.2.2.2.2.2
+    (mon (reach acts).hist).ab c = false :=
+  idle_not_abandoned_of_inv (reach_inv acts) c hc
 
 /-- `abandoned_drained_or_closed`: if the caller of exchange `e` gives up (`ret e ctx`) while
     connection `c` is in `e`'s hands, and `c` is later found in the idle set, then in between
-    the reply was drained from `c` (an `rd c _` event, which only `workerReadOk` emits). -/
+    a complete frame was drained from `c` (an `rd c _ _` event, which only `workerReadOk`
+    emits; by `idle_clean` it carried the id of the outstanding query). Holds against any server. -/
 theorem abandoned_drained_or_closed (acts : List Act) (c e : Nat) (h₁ h₂ : List Event)
-    (hh : (reach acts).hist = h₁ ++ Event.ret e .ctx :: h₂)
-    (hown : (mon h₁).owner c = some e) (hc : c ∈ (reach acts).idle) :
-    ∃ q, Event.rd c q ∈ h₂ := by
+    (hh : (reachAdv acts).hist = h₁ ++ Event.ret e .ctx :: h₂)
+    (hown : (mon h₁).owner c = some e) (hc : c ∈ (reachAdv acts).idle) :
+    ∃ q i, Event.rd c q i ∈ h₂ := by
   apply Classical.byContradiction
   intro hno
-  have hno : ∀ q, Event.rd c q ∉ h₂ := fun q hq => hno ⟨q, hq⟩
-  have hab := idle_not_abandoned acts c hc
+  have hno : ∀ q i, Event.rd c q i ∉ h₂ := fun q i hq => hno ⟨q, i, hq⟩
+  have hab := idle_not_abandoned_of_inv (reachAdv_inv acts) c hc
   rw [hh, mon_append, List.foldl_cons] at hab
   have := ab_persists h₂ (monStep (mon h₁) (.ret e .ctx)) c (by simp [monStep, hown]) hno
   rw [this] at hab
   exact Bool.noConfusion hab
 
 /-- `rd` events are emitted by `workerReadOk` only, i.e. by the worker goroutine that owns the
-    connection, after it consumed the complete reply. -/
-theorem rd_only_by_workerReadOk (s : State) (a : Act) (c q : Nat)
-    (hnew : Event.rd c q ∈ (step s a).hist) (hold : Event.rd c q ∉ s.hist) :
+    connection, after it consumed a complete frame. -/
+theorem rd_only_by_workerReadOk (s : State) (a : Act) (c q i : Nat)
+    (hnew : Event.rd c q i ∈ (stepAdv s a).hist) (hold : Event.rd c q i ∉ s.hist) :
     a = .workerReadOk c := by
-  unfold step at hnew
+  unfold stepAdv at hnew
   split at hnew
   · exact absurd hnew hold
-  · cases a <;> simp only [stepCore, stepCoreG] at hnew
+  · cases a <;> simp only [stepCoreG] at hnew
     case workerReadOk c' =>
       repeat' split at hnew
       all_goals simp [State.emit, State.setConn, hold] at hnew
-      rw [hnew.1]
+      all_goals rw [hnew.1]
     all_goals
       exfalso
       repeat' split at hnew
@@ -202,6 +369,9 @@ theorem rd_only_by_workerReadOk (s : State) (a : Act) (c q : Nat)
     handed to an exchange while another goroutine still owns it. -/
 theorem no_double_use (acts : List Act) : (reach acts).fault = none :=
   (reach_inv acts).fault
+
+theorem no_double_use_adv (acts : List Act) : (reachAdv acts).fault = none :=
+  (reachAdv_inv acts).fault
 
 /-- the last attempt (`retry > 5`) does not consult the pool — nor `t.closed` — and dials: the
     idle set, every connection and the history are untouched. -/
@@ -233,10 +403,10 @@ def demoActs : List Act :=
    .workerReadPart 0, .srvReply 0 true, .workerReadOk 0, .workerPost 0, .recvRes 1, .workerRelA 0, .workerRelB 0]
 
 example : (reach demoActs).idle = [0] := by decide
-example : (reach demoActs).hist = [.dial 0, .use 0 1, .wr 0 1, .rd 0 1, .ret 1 (.ok 1)] := by decide
+example : (reach demoActs).hist = [.dial 0, .use 0 1, .wr 0 1 0, .rd 0 1 0, .ret 1 (.ok 1)] := by decide
 /-- … and reuses it -/
 example : (reach (demoActs ++ [.start 2, .getIdle 2 (some 0), .workerWrite 0 false])).hist =
-    [.dial 0, .use 0 1, .wr 0 1, .rd 0 1, .ret 1 (.ok 1), .use 0 2, .wr 0 2] := by decide
+    [.dial 0, .use 0 1, .wr 0 1 0, .rd 0 1 0, .ret 1 (.ok 1), .use 0 2, .wr 0 2 1] := by decide
 /-- a caller that gives up while its query is outstanding: the connection stays with the
     worker, and comes back only after the reply was drained -/
 example : (reach [.start 1, .getIdle 1 none, .dialDone 1 true, .dialExit 0, .dialDeliver 0 true,
@@ -245,20 +415,48 @@ example : (reach [.start 1, .getIdle 1 none, .dialDone 1 true, .dialExit 0, .dia
     .workerWrite 0 false, .cancel 1, .giveUp 1, .srvReply 0 true, .workerReadOk 0, .workerPost 0, .workerRelA 0, .workerRelB 0]).idle
     = [0] := by decide
 
+/-- a duplicated reply (the scenario of 31b269e): exchange 1 gets its reply, the copy stays in the
+    stream; exchange 2 reuses the connection, reads the copy, rejects it because of its id, the
+    connection is closed and forgotten, exchange 2 retries on a new connection and gets its own reply -/
+def dupActs : List Act :=
+  [.start 1, .getIdle 1 none, .dialDone 1 true, .dialExit 0, .dialDeliver 0 true, .workerWrite 0 false,
+   .srvReply 0 true, .srvDup 0 0, .workerReadOk 0, .workerPost 0, .recvRes 1, .workerRelA 0, .workerRelB 0,
+   .start 2, .getIdle 2 (some 0), .workerWrite 0 false, .workerReadOk 0, .workerPost 0, .recvRes 2,
+   .workerRelA 0, .workerRelB 0, .getIdle 2 none, .dialDone 2 true, .dialExit 1, .dialDeliver 1 true,
+   .workerWrite 1 false, .srvReply 1 true, .workerReadOk 1, .workerPost 1, .recvRes 2]
+
+example : (reach dupActs).hist =
+    [.dial 0, .use 0 1, .wr 0 1 0, .rd 0 1 0, .ret 1 (.ok 1), .use 0 2, .wr 0 2 1, .rd 0 1 0, .cl 0,
+     .dial 1, .use 1 2, .wr 1 2 0, .rd 1 2 0, .ret 2 (.ok 2)] := by decide
+example : (reach dupActs).idle = [] ∧ (reach dupActs).all = [1] := by decide
+
+/-- a lying server (arbitrary frame with the right id) can of course make an exchange return a
+    foreign answer — `own_reply` needs `reach`, `own_wire_id` does not -/
+example : (reachAdv [.start 1, .getIdle 1 none, .dialDone 1 true, .dialExit 0, .dialDeliver 0 true,
+    .workerWrite 0 false, .srvStray 0 ⟨0, 7, true⟩, .workerReadOk 0, .workerPost 0, .recvRes 1]).hist =
+    [.dial 0, .use 0 1, .wr 0 1 0, .rd 0 7 0, .ret 1 (.ok 7)] := by decide
+
 /-- the specification is not vacuous: it rejects … a second query on a connection that still owes a reply, -/
-example : spec [.dial 0, .use 0 1, .wr 0 1, .ret 1 .ctx, .use 0 2] = false := by decide
-example : spec [.dial 0, .use 0 1, .wr 0 1, .use 0 2, .wr 0 2] = false := by decide
+example : spec [.dial 0, .use 0 1, .wr 0 1 0, .ret 1 .ctx, .use 0 2] = false := by decide
+example : spec [.dial 0, .use 0 1, .wr 0 1 0, .use 0 2, .wr 0 2 1] = false := by decide
 /-- … a foreign reply, -/
-example : spec [.dial 0, .use 0 1, .wr 0 1, .rd 0 1, .ret 2 (.ok 1)] = false := by decide
+example : spec [.dial 0, .use 0 1, .wr 0 1 0, .rd 0 1 0, .ret 2 (.ok 1)] = false := by decide
+/-- … the behaviour before 31b269e: a frame with a foreign id is returned to the caller, -/
+example : safe [.dial 0, .use 0 1, .wr 0 1 0, .rd 0 1 0, .ret 1 (.ok 1), .use 0 2, .wr 0 2 1, .rd 0 1 0,
+    .ret 2 (.ok 1)] = false := by decide
+/-- … or the connection is used again after such a frame, -/
+example : safe [.dial 0, .use 0 1, .wr 0 1 0, .rd 0 1 0, .ret 1 (.ok 1), .use 0 2, .wr 0 2 1, .rd 0 1 0,
+    .ret 2 .err, .use 0 3] = false := by decide
 /-- … reuse after an error or an undecodable reply, -/
-example : spec [.dial 0, .use 0 1, .wr 0 1, .err 0, .ret 1 .err, .use 0 2] = false := by decide
-example : spec [.dial 0, .use 0 1, .wr 0 1, .bad 0 1, .ret 1 .err, .use 0 2] = false := by decide
+example : spec [.dial 0, .use 0 1, .wr 0 1 0, .err 0, .ret 1 .err, .use 0 2] = false := by decide
+example : spec [.dial 0, .use 0 1, .wr 0 1 0, .bad 0, .ret 1 .err, .use 0 2] = false := by decide
 /-- … reuse of a connection the client closed, -/
-example : spec [.dial 0, .use 0 1, .wr 0 1, .rd 0 1, .ret 1 (.ok 1), .cl 0, .use 0 2] = false := by decide
+example : spec [.dial 0, .use 0 1, .wr 0 1 0, .rd 0 1 0, .ret 1 (.ok 1), .cl 0, .use 0 2] = false := by decide
 /-- … a worker that puts another exchange's bytes on the connection; -/
-example : spec [.dial 0, .use 0 1, .wr 0 9999] = false := by decide
+example : spec [.dial 0, .use 0 1, .wr 0 9999 0] = false := by decide
 /-- and it accepts the drained hand-over. -/
-example : spec [.dial 0, .use 0 1, .wr 0 1, .ret 1 .ctx, .rd 0 1, .use 0 2, .wr 0 2, .rd 0 2, .ret 2 (.ok 2)] = true := by
+example : spec [.dial 0, .use 0 1, .wr 0 1 0, .ret 1 .ctx, .rd 0 1 0, .use 0 2, .wr 0 2 1, .rd 0 2 1,
+    .ret 2 (.ok 2)] = true := by
   decide
 
 /-- tie (pinned source facts): who calls `releaseConn` (the worker goroutine of
@@ -266,7 +464,9 @@ example : spec [.dial 0, .use 0 1, .wr 0 1, .ret 1 .ctx, .rd 0 1, .use 0 2, .wr 
     `idleConns`, `enterIdle` precedes the insertion, the retry condition and the `retry <= 5`
     guard in front of `getIdleConn` (the last attempt dials), the closed check in
     `exitIdle`, the worker's private copy of the payload, the idle timer's test, both reads of
-    `ReadMsgFromTCP` are `io.ReadFull`. -/
+    `ReadMsgFromTCP` are `io.ReadFull`; the per-connection wire id (taken from `c.nextQid`,
+    incremented, written into the payload), the comparison of the reply's id with it and the
+    restoring of the caller's id. -/
 theorem pins :
     Facts.reuse_retryCond = "!isNewConn && retry <= 5 && !ctxIsDone(ctx)" ∧
     Facts.reuse_poolGuard = "retry <= 5" ∧ Facts.reuse_retryConds = 2 ∧ Facts.reuse_getIdleCalls = 1 ∧
@@ -288,6 +488,12 @@ theorem pins :
     Facts.reuse_exchangeConnWrite = "_, err := c.c.Write(payload)" ∧
     Facts.reuse_exchangeConnRead = "r, _, err := dnsutils.ReadMsgFromTCP(c.c)" ∧
     Facts.reuse_readFullCalls = 2 ∧
+    Facts.reuse_idSave = "origID := binary.BigEndian.Uint16(payload[2:])" ∧
+    Facts.reuse_idTake = "qid := c.nextQid" ∧ Facts.reuse_idBump = "c.nextQid++" ∧ Facts.reuse_nextQidUses = 2 ∧
+    Facts.reuse_idPut = "binary.BigEndian.PutUint16(payload[2:], qid)" ∧
+    Facts.reuse_idCheck = "r.Header.ID != qid" ∧
+    Facts.reuse_idCheckStmt = "if r.Header.ID != qid { dnsmsg.ReleaseMsg(r) return nil, errUnexpectedRespID }" ∧
+    Facts.reuse_idRestore = "r.Header.ID = origID" ∧
     Facts.reuse_queryTimeout = 6000000000 := by
   (repeat' apply And.intro) <;> rfl
 
